@@ -178,7 +178,7 @@ inductive Ty where
   | semverT (orig : Bytes) (rs : List ARange)   -- `SemVer[range]`: the string the range was parsed from, and the parsed ranges
   | hash (k v : Ty) (lo hi : Int)               -- `Hash[K, V, lo, hi]`
   | like (base : Ty) (nav : Bytes)              -- `Like[T, 'navigation']`
-  | callable (ts : Option (List Ty))            -- `Callable` / `Callable[T1, …, Tn]` (no block, no return type)
+  | callable (has : Bool) (ts : List Ty)        -- `Callable` (`has = false`) / `Callable[T1, …, Tn]` (no block, no return type)
   | runtime (rt name : Bytes) (pat : Option Bytes)   -- `Runtime['rt', 'name', Regexp[/pat/]]`
   deriving Inhabited
 
@@ -208,7 +208,7 @@ def Ty.name : Ty → Bytes
   | .tref _ => [0x54, 0x79, 0x70, 0x65, 0x52, 0x65, 0x66, 0x65, 0x72, 0x65, 0x6e, 0x63, 0x65]
   | .semverT _ _ => [0x53, 0x65, 0x6d, 0x56, 0x65, 0x72]
   | .hash _ _ _ _ => [0x48, 0x61, 0x73, 0x68] | .like _ _ => [0x4c, 0x69, 0x6b, 0x65]
-  | .callable _ => [0x43, 0x61, 0x6c, 0x6c, 0x61, 0x62, 0x6c, 0x65]
+  | .callable _ _ => [0x43, 0x61, 0x6c, 0x6c, 0x61, 0x62, 0x6c, 0x65]
   | .runtime _ _ _ => [0x52, 0x75, 0x6e, 0x74, 0x69, 0x6d, 0x65]
 
 /-- `utils.ContainsAllStrings(a, b)`: every member of `b` occurs in `a` -/
@@ -309,9 +309,12 @@ def tyKey : Ty → Bytes
        else if (k.isUnit ∧ v.isUnit) ∧ (lo = 0 ∧ hi = 0) then ekInt 0 ++ ekInt 0
        else frame (tyKey k) ++ (frame (tyKey v) ++ (if lo = 0 ∧ hi = maxInt then [] else sizeParams lo hi)))
   | .like b n => [1, 0x74] ++ ekStr (Ty.like b n).name ++ (if b.isAny ∧ n.isEmpty then [] else frame (tyKey b) ++ ekStr n)
-  -- `CallableType.Parameters()`: the parameters of the Tuple of parameter types, Unit left out
-  | .callable none => [1, 0x74] ++ ekStr (Ty.callable none).name
-  | .callable (some ts) => [1, 0x74] ++ ekStr (Ty.callable none).name ++ tyKeysNU ts
+  -- `CallableType.ToKey` (/repo fix a044786): the three parts `Equals` compares — parameter Tuple (through `TupleType.ToKey`),
+  -- return type, block type — an absent one as undef (the model has neither a return nor a block type)
+  | .callable h ts => [1, 0x74] ++ ekStr (Ty.callable h ts).name ++
+      (frame (if h then [1, 0x74] ++ ekStr [0x54, 0x75, 0x70, 0x6c, 0x65] ++ tyKeys ts ++ sizeParams ts.length ts.length
+              else undefKey) ++
+       (frame undefKey ++ frame undefKey))
   -- `RuntimeType.Parameters()` (/repo fix 1cd0d3f): nothing for the default only; else the runtime, the name unless it is
   -- empty, the pattern (a Regexp type) if there is one
   | .runtime rt n p => [1, 0x74] ++ ekStr (Ty.runtime rt n p).name ++
@@ -324,10 +327,6 @@ def tyKeys : List Ty → Bytes
 def tyKeyL : List Ty → List Bytes
   | [] => []
   | t :: ts => tyKey t :: tyKeyL ts
-/-- the framed keys of the types that are not Unit (`px.Select(tupleParams, not *UnitType)`) -/
-def tyKeysNU : List Ty → Bytes
-  | [] => []
-  | t :: ts => (if t.isUnit then [] else frame (tyKey t)) ++ tyKeysNU ts
 end
 
 mutual
@@ -370,8 +369,9 @@ def tyEq : Ty → Ty → Bool
   | .semverT _ rs, b => match b with | .semverT _ rs' => rangesEq rs rs' | _ => false
   | .hash k v lo hi, b => match b with | .hash k' v' lo' hi' => (lo == lo' && hi == hi') && tyEq k k' && tyEq v v' | _ => false
   | .like t n, b => match b with | .like t' n' => n == n' && tyEq t t' | _ => false
-  -- `CallableType.Equals` is a bare type assertion: ANY two Callable types are Equal (known finding C07-callable-all-equal)
-  | .callable _, b => match b with | .callable _ => true | _ => false
+  -- `CallableType.Equals` (/repo fix 3d635fb): the parameter Tuples are both absent, or Equal (here: no explicit size, so the
+  -- same number of members, pairwise Equal)
+  | .callable h ts, b => match b with | .callable h' us => h == h' && (!h || (ts.length == us.length && tyEqL ts us)) | _ => false
   | .runtime rt n p, b => match b with | .runtime rt' n' p' => rt == rt' && n == n' && p == p' | _ => false
 termination_by structural a => a
 /-- `b.Equals(a)` (the argument receives the call), by recursion on `a` -/
@@ -411,7 +411,7 @@ def tyEqR : Ty → Ty → Bool
   | .semverT _ rs, b => match b with | .semverT _ rs' => rangesEq rs' rs | _ => false
   | .hash k v lo hi, b => match b with | .hash k' v' lo' hi' => (lo' == lo && hi' == hi) && tyEqR k k' && tyEqR v v' | _ => false
   | .like t n, b => match b with | .like t' n' => n' == n && tyEqR t t' | _ => false
-  | .callable _, b => match b with | .callable _ => true | _ => false
+  | .callable h ts, b => match b with | .callable h' us => h' == h && (!h || (us.length == ts.length && tyEqRL ts us)) | _ => false
   | .runtime rt n p, b => match b with | .runtime rt' n' p' => rt' == rt && n' == n && p' == p | _ => false
 termination_by structural a => a
 /-- pointwise `ts[i].Equals(us[i])` (lengths already compared) -/
